@@ -35,7 +35,7 @@ ASSUMPTIONS = [
 RULE = ('one evaluation = one (program, annotations) triple / one printed condition / one eval_Sem run; distinct = distinct inputs; non-trivial (counted) = all VCs valid so the triple '
         'was judged, or the printed form was re-parsed, or eval_Sem succeeded')
 EXPLANATION = 'states are z3 integers; VC validity, triple validity w.r.t. the reference interpreter, and print/parse equivalence are z3 validity queries over all states'
-BUDGET_S = {'quick': 240, 'thorough': 1500}
+BUDGET_S = {'quick': 240, 'thorough': 900}
 VARS = ['x', 'y']
 
 
